@@ -795,8 +795,11 @@ def run_case(ctx, spec: dict):
             earlier.record_index = 1
             earlier.strip_antismash_annotations()
             rerun = A.annotate(earlier, A.reannotation_spec(spec))
-        except Exception as err:  # pylint: disable=broad-except
+        except ValueError as err:
             ctx.count("skipped:reannotation-not-possible:" + type(err).__name__)
+            return
+        except Exception as err:  # pylint: disable=broad-except
+            ctx.violate("read-strip-annotate-again-crash", {**base_facts, **crash_facts(err)}, case)
             return
         ctx.count("history:record-read-stripped-and-annotated-again")
         case_b = {"spec": spec, "history": "read-strip-annotate-again"}
